@@ -228,6 +228,15 @@ def judge_direct(ck, cases, results):
 POSITIONS = ['assign', 'component', 'typeref', 'valueref', 'size-octet', 'size-ia5', 'size-seqof', 'size-bits']
 
 
+def size_operands_text(elems, ops, marker):
+    """the expression with every operand written as its own SIZE element: (SIZE (a) | SIZE (b), ...) -- same sizes as SIZE (a | b, ...)"""
+    parts = ['SIZE (%s)' % G.t_elem(dict(e, x=False)) for e in elems]
+    out = parts[0]
+    for o, pt in zip(ops, parts[1:]):
+        out += ' %s %s' % (G.T_OPS[o], pt)
+    return '(%s%s)' % (out, ', ...' if marker else '')
+
+
 def e2e_module(text, elems_have_ints=True):
     """one module exercising the constraint text in the four INTEGER positions and four SIZE positions"""
     return ('M DEFINITIONS AUTOMATIC TAGS ::= BEGIN\n'
@@ -297,6 +306,16 @@ def judge_e2e(ck, cases, results):
         if gg:
             obs.append(('size-before-from', False, True, parse_attr(gg['fields'][0]['attrs'])))
             obs.append(('size-after-from-component', False, True, parse_attr(gg['fields'][1]['attrs'])))
+        vv = find(r['items'], 'struct', 'Vv')
+        if vv:
+            at = parse_attr(vv['attrs'])
+            m = re.match(r'FixedOctetString<(\d+)(?:usize)?>', vv['fields'][0]['ty'])
+            if m:
+                at = ('size', int(m.group(1)), int(m.group(1)), False)
+            obs.append(('size-operands', False, True, at))
+        ww = find(r['items'], 'struct', 'Ww')
+        if ww:
+            obs.append(('size-operands-component', False, True, parse_attr(ww['fields'][0]['attrs'])))
         if len(obs) < 10 and r.get('warnings'):
             ck.count('e2e-warned')                     # e.g. an empty intersection: reported, not silent
         elif len(obs) < 10:
@@ -509,7 +528,11 @@ def run(ck):
                for e in elems):
             continue      # sizes are non-negative; the same text is used for SIZE positions
         text = G.t_constraint({'set': G.chain(elems, ops), 'ext': marker})
-        e2e.append({'op': 'compile', 'sources': [e2e_module(text)], '_m': (elems, ops, marker), '_text': text})
+        src = e2e_module(text)
+        if len(elems) >= 2:
+            src = src.replace('END\n', 'Vv ::= OCTET STRING %s\nWw ::= SEQUENCE { w IA5String %s }\nEND\n'
+                              % (size_operands_text(elems, ops, marker), size_operands_text(elems, ops, marker)))
+        e2e.append({'op': 'compile', 'sources': [src], '_m': (elems, ops, marker), '_text': text})
     if e2e:
         ck.sample({'asn1': e2e[0]['sources'][0]})
     judge_e2e(ck, e2e, run_harness(e2e))
